@@ -15,6 +15,7 @@ pub mod c08;
 pub mod c09;
 pub mod c10;
 pub mod c13;
+pub mod c14;
 
 #[derive(Clone, Copy, Debug, PartialEq, Eq)]
 pub enum Tier {
@@ -70,7 +71,7 @@ pub trait Campaign: Sync {
 }
 
 pub fn all() -> Vec<&'static dyn Campaign> {
-    vec![&c01::C01, &c06::C06, &c07::C07, &c07::C17, &c08::C08, &c08::C20, &c10::C10, &c10::C16, &c10::C12, &c09::C09, &c09::C11, &c09::C18, &c02::C02, &c02::C03, &c13::C13, &c13::C15]
+    vec![&c01::C01, &c06::C06, &c07::C07, &c07::C17, &c08::C08, &c08::C20, &c10::C10, &c10::C16, &c10::C12, &c09::C09, &c09::C11, &c09::C18, &c02::C02, &c02::C03, &c13::C13, &c13::C15, &c14::C14]
 }
 
 pub fn by_id(id: &str) -> Option<&'static dyn Campaign> {
